@@ -41,7 +41,7 @@ class DictArray(StorageBase):
         if internal_shape is not None and len(shape_mask) != len(shape) + len(internal_shape):  # type: ignore[arg-type]
             msg = "shape_mask must have the same length as shape + internal_shape"
             raise ValueError(msg)
-        self.folder = Path(folder) if folder is not None else folder
+        self.folder = Path(folder).absolute() if folder is not None else folder
         self.shape = tuple(shape)
         self.shape_mask = tuple(shape_mask) if shape_mask is not None else (True,) * len(shape)
         self.internal_shape = tuple(internal_shape) if internal_shape is not None else ()
